@@ -156,6 +156,7 @@ def judge_iban_total(mon: Mon, text: str, table, tag: str, validate_bban: bool =
         if o.ok or not is_lib_exc(o.exc):
             continue
         cls = o.exc_name
+        names = o.exc_names
         mon.tally("raised_" + cls)
         if exp.verdict == R.DONT_CARE:
             continue
@@ -166,9 +167,9 @@ def judge_iban_total(mon: Mon, text: str, table, tag: str, validate_bban: bool =
                 natv = nat(exp.norm) if nat else R.DONT_CARE
                 if natv != R.ACCEPT:
                     allowed |= {"InvalidBBANChecksum", "InvalidAccountCode"}
-            if cls not in allowed:
+            if not (names & allowed):
                 mon.viol(f"error_without_defect:{cls}", w, "no defect present", o.brief())
-        elif cls not in allowed:
+        elif not (names & allowed):
             mon.viol(
                 f"error_class_names_absent_defect:{cls}:present={'+'.join(sorted(exp.defects))}",
                 w, sorted(allowed), o.brief(),
@@ -241,7 +242,7 @@ def judge_bic(mon: Mon, text: str, strict: bool, tag: str, prop_mode: str = "acc
                 continue
             if not exp.defects:
                 mon.viol(f"bic_error_without_defect:{o.exc_name}", w, "no defect present", o.brief())
-            elif o.exc_name not in exp.allowed:
+            elif not (o.exc_names & set(exp.allowed)):
                 mon.viol(
                     f"bic_error_class_names_absent_defect:{o.exc_name}:present={'+'.join(sorted(exp.defects))}",
                     w, sorted(exp.allowed), o.brief(),
